@@ -51,7 +51,7 @@ CLAIMS.update({
             "Runtime monitoring: histories start from injected states 0..64 bytes before the 4 224 281 216-byte and 2^32-byte marks and feed pieces that end on, start on and cross the marks (incl. one 70 MB piece crossing both); after every piece processed_len, the TooLargeInput gate and finalize results are compared with the model; debug builds catch counter overflow; the thorough tier feeds real 4.2 GB streams and one single >4 GiB slice. " + _T,
             "Trusts hook H2 (validated against real streams in the thorough tier) and the reference model.", "DESIGN.md §3 C11"),
     "C12": ("scripted fault-injecting reader vs buffer hash",
-            "Runtime monitoring with fault injection: scripted readers (short reads of 1..5 bytes, random sizes, Interrupted before/between/after reads, six kinds of hard errors, early EOF, streams above 1 MiB) drive hash_stream_for for all five variants; the result must equal hash_buf of the delivered bytes or Err(IOError(kind)); files of boundary sizes and a missing path are hashed. " + _T,
+            "Runtime monitoring with fault injection: scripted readers (short reads of 1..5 bytes, random sizes, Interrupted before/between/after reads, six kinds of hard errors of every io::ErrorKind, early EOF, interruption storms, streams above 1 MiB) drive hash_stream_for for all five variants; real OS pipes with a slow writer and signal-induced EINTR (handler without SA_RESTART) exercise the same path with genuine kernel behaviour; the result must equal hash_buf of the delivered bytes or Err(IOError(kind)); files of boundary sizes and a missing path are hashed. " + _T,
             "hash_buf of the same build is the oracle (C01 ties it to the reference); sampled scripts.", "DESIGN.md §3 C12"),
     "C13": ("helper vs parse-then-compare (law) + codec and distance models",
             "Runtime monitoring: string pairs from the full (left kind x right kind) grid of {accepted, wrong length, bad prefix, bad character, strict-invalid} are compared through compare_with::<T> against parse-both-then-compare (side and error kind) and against the models. " + _T,
